@@ -23,7 +23,7 @@ from circuitpython_nrf24l01.fake_ble import FakeBLE
 
 PROP = "C19"
 LEVEL = "fault_enumeration"
-RULE = ("base packets: FakeBLE advertisements with seeded name / PA level / battery 0..255 / temperature -300.00..+300.00 "
+RULE = ("base packets: FakeBLE advertisements with seeded name (incl. the empty name) / PA level / battery 0..255 / temperature -300.00..+300.00 "
         "/ Eddystone URLs (4 schemes, every suffix code, printable characters) / raw chunks on all three channels, and "
         "reference-encoder PDUs (valid, CRC-valid adversarial: length byte 0..29 vs AD lengths, zero-length structures, "
         "service data shorter than its UUID, truncated fields, unknown types, invalid UTF-8 names; bad CRC; random 32 "
@@ -36,7 +36,7 @@ ASSUMPTIONS = ["reference codec checks/bleref.py (Core spec whitening, CRC-24, P
                "raw / unknown structures must appear byte-for-byte in one of the element's data entries"]
 CLAUSES = {"decode": "queued element equals what was advertised", "reject": "inconsistent length byte or CRC-24 => not queued",
            "no_raise": "available() never raises for any 32 received bytes", "fifo": "read() in arrival order, each once"}
-PROBES = ["crc_valid_malformed_pdu", "flip_in_padding_still_valid"]
+PROBES = ["crc_valid_malformed_pdu", "flip_in_padding_still_valid", "end_to_end_checked"]
 SHRINK_KEYS = ("packets", "faults")
 CHUNK = 60
 CHS = [2, 26, 80]
@@ -87,7 +87,7 @@ def _rand_ble_packet(rng):
     name = None
     free = 18
     if rng.random() < 0.5:
-        n = rng.choice([1, 3, 5, 8])
+        n = rng.choice([1, 3, 5, 8, 0])     # 0: the empty name (a name structure with no characters)
         name = "".join(rng.choice("nRF24L01abcXYZ_") for _ in range(n))
         free -= n + 2
     show = rng.random() < 0.4
@@ -284,6 +284,7 @@ def _run(scn, w, res):
     received = 0
     for j, p in enumerate(scn["packets"]):
         a0 = len(w.air.trace)
+        advertised = False
         sim.log("pkt", "T", p["kind"])
         if p["kind"] == "ble":
             tx.mac = p["mac"]
@@ -311,6 +312,7 @@ def _run(scn, w, res):
                 tx.advertise(chunks)
             except ValueError:
                 continue  # generator overshot the capacity: not a packet
+            advertised = True
         elif p["kind"] == "ref":
             pdu = bleref.make_pdu(bytes.fromhex(p["mac"]), bytes.fromhex(p["adv"]), length=p["L"])
             inj.send(b"\x71\x91\x7d\x6b", bleref.encode(pdu, ch, bad_crc=p["bad_crc"])[:32], want_ack=False)
@@ -329,6 +331,21 @@ def _run(scn, w, res):
                     "available() raised %r for received payload %s (%s)" % (e, got.hex() if got else None, p.get("desc", p["kind"])))
             return
         queued = len(rx.rx_queue) - qlen0
+        if advertised and not any(a0 <= r.get("n", -1) < len(w.air.trace) for r in (scn.get("faults") or [])):
+            # end to end: an advertisement FakeBLE accepted, sent over an undisturbed medium to a receiver on its channel,
+            # yields exactly one element carrying the advertised name and PA level (whatever went over the air in between)
+            if queued != 1:
+                res.add("decode", {"kind": "advertised_not_received", "name_len": len(p["name"]) if p["name"] is not None else -1},
+                        "advertise() with name %r, show_pa_level %r, %d item(s) was accepted and transmitted undisturbed, but the receiver queued %d elements"
+                        % (p["name"], p["show"], len(p["items"]), queued))
+                return
+            el = rx.rx_queue[-1]
+            nm = el.name.decode() if isinstance(el.name, (bytes, bytearray)) else el.name
+            if (nm or None) != (p["name"] or None):
+                res.add("decode", {"kind": "name", "end_to_end": True}, "advertised name %r, element name %r" % (p["name"], el.name))
+            if el.pa_level != (p["pa"] if p["show"] else None):
+                res.add("decode", {"kind": "pa_level", "end_to_end": True}, "advertised pa_level %r (shown: %r), element pa_level %r" % (p["pa"], p["show"], el.pa_level))
+            sim.count("end_to_end_checked")
         if got is None:
             outcomes.append("lost")
             if queued:
